@@ -327,7 +327,7 @@ func leafPlace(ctx string, i int, mod, body string) (stmt string, path []string,
 	leaf := func(extra string) string { return fmt.Sprintf("leaf %s { %s%s }", x, body, extra) }
 	path = []string{cont, x}
 	top = map[string]string{}
-	if WrittenIn(ctx, mod) == "a" && mod != "b" {
+	if WrittenIn(ctx, mod) != mod && WrittenIn(ctx, mod) != mod+"s" && mod != "b" {
 		// module a does not import module b: not a context for a leaf of module a (the specification does not generate it)
 		return leaf(" verif-context-needs-module-b " + quote(ctx) + ";"), path, false, top
 	}
